@@ -131,12 +131,16 @@ theorem setBL_linv {st : State} {v : Nat} {b' : Buf} {L' : Ledger} (hl : LInv st
     have key : ∀ x bx, v ≠ x → st.bufs[x]? = some bx → bx.ownId = some id → b'.ownId = some id → False := by
       intro x bx hx hbx hidx hid'
       have hlive := hl.live_of_owned x bx id hbx hidx
-      rcases hfresh with h | h | ⟨h, _⟩
+      rcases hfresh with h | h | ⟨h, _⟩ | ⟨h, _⟩
       · exact hx (hl.excl v x _ bx id hbv hbx (h ▸ hid') hidx)
       · rw [h] at hid'; cases hid'
       · rw [h] at hid'
         cases hid'
         exact Nat.lt_irrefl _ (hl.bounded _ hlive)
+      · rw [h] at hid'
+        cases hid'
+        have := hl.bounded _ hlive
+        omega
     by_cases h1 : v = u <;> by_cases h2 : v = w
     · exact h1.symm.trans h2
     · simp only [h1, if_true, Option.some.injEq] at hu
@@ -154,10 +158,11 @@ theorem setBL_linv {st : State} {v : Nat} {b' : Buf} {L' : Ledger} (hl : LInv st
     rw [hled] at hi ⊢
     rw [hmem] at hi
     rcases hi with h | ⟨h1, _⟩
-    · rcases hfresh with h' | h' | ⟨h', hlt⟩
+    · rcases hfresh with h' | h' | ⟨h', hlt⟩ | ⟨h', hlt⟩
       · have := hl.bounded i (hl.live_of_owned v _ i hbv (h' ▸ h))
         omega
       · rw [h'] at h; cases h
+      · rw [h'] at h; cases h; exact hlt
       · rw [h'] at h; cases h; exact hlt
     · have := hl.bounded i h1
       omega
